@@ -661,7 +661,7 @@ def check_property(prop, spec, tier, seed, replay=None, keep=False):
     cov = {
         "evaluations": total.evaluations,
         "distinct_nontrivial": distinct,
-        "rule": spec["rule"],
+        "rule": spec["rule"] + spec.get("rule_extra", ""),
         "samples": total.samples[:8] or ["(no sample recorded)"],
         "exhaustive": False,
         "counters": dict(sorted(total.counters.items())),
